@@ -7096,11 +7096,10 @@ class FrameGO(Frame):
             keys.append(k)
             blocks.append(self._setitem_block(v, fill_value))
 
-        if self._columns.depth > 1:
-            # tree-form and depth of hierarchical labels can only be validated by appending: try on a copy
-            columns_trial = self._columns.copy()
-            for k in keys:
-                columns_trial.append(k)
+        # labels are normalized on append (datetime columns) and tree-form and depth of hierarchical labels can only be validated by appending: try on a copy
+        columns_trial = self._columns.copy()
+        for k in keys:
+            columns_trial.append(k)
 
         for k, block in zip(keys, blocks):
             self._columns.append(k)
